@@ -417,7 +417,90 @@ fn gen_filter(r: &mut Rng, t: Ty) -> Filter {
     Filter { slow, clauses }
 }
 
+/// F7's shape: two (or three) filter sources on different types, the lower-priority ones slow; the
+/// messages arrive lowest priority first with spins in between, so that a higher-priority source finds
+/// its message while a lower-priority verdict is pending (abandonment), in both orders of acceptance.
+fn gen_takeover_scenario(r: &mut Rng) -> Scenario {
+    let mut tys = vec![Ty::Int, Ty::Bin, Ty::Str];
+    r.shuffle(&mut tys);
+    let k = 2 + r.usize(2);
+    let mut sources = vec![];
+    for (i, t) in tys.iter().take(k).enumerate() {
+        let verdict = match r.below(4) {
+            0 => FRes::Nil,
+            1 => FRes::Int(900 + r.range(0, 99)),
+            _ => FRes::Ok,
+        };
+        let slow = if i == 0 { *r.pick(&[0u32, 0, 2]) } else { *r.pick(&[15u32, 40, 120, 400]) };
+        sources.push(Src::Recv { tys: vec![*t], filter: Some(Filter { slow, clauses: vec![(Pred::Any, verdict)] }) });
+    }
+    if r.chance(1, 2) {
+        sources.push(Src::Timeout(format!("{}", r.range(20, 60))));
+    }
+    let mut script = vec![];
+    for t in tys.iter().take(k).rev() {
+        let m = match t {
+            Ty::Int => Msg::Int(r.range(0, 9)),
+            Ty::Bin => {
+                let n = 1 + r.usize(3);
+                Msg::Bin(r.bytes(n))
+            }
+            Ty::Str => Msg::Str(["a", "hi", "hello"][r.usize(3)].to_string()),
+        };
+        script.push(Act { sleep: None, spin: *r.pick(&[0u32, 10, 40, 150]), kind: ActKind::Send(m) });
+        if r.chance(1, 3) {
+            script.push(Act { sleep: None, spin: 0, kind: ActKind::Send(gen_msg(r)) });
+        }
+    }
+    Scenario { sources, helpers: vec![], script, final_sleep: Some(70), p_delay: 0, after_go: None, report: r.chance(1, 2) }
+}
+
+const BOUNDARY_TIMEOUTS: &[&str] = &[
+    "0", "1", "-1", "2147483647", "2147483648", "4294967295", "4294967296", "9223372036854775807",
+    "9223372036854775808", "18446744073709551615", "18446744073709551616", "18446744073709551617",
+    "1000000000000000000000000000000", "-2147483649", "-9223372036854775808", "-9223372036854775809",
+    "-18446744073709551616", "-1000000000000000000000000000000",
+];
+
+/// A timeout of boundary magnitude written BEFORE a source that is ready from the start (a message
+/// already in the mailbox / an awaited process that has finished): unless the effective duration is 0
+/// the later source must win, at once.
+fn gen_boundary_timeout_scenario(r: &mut Rng) -> Scenario {
+    let t = BOUNDARY_TIMEOUTS[r.usize(BOUNDARY_TIMEOUTS.len())].to_string();
+    let mut sources = vec![Src::Timeout(t)];
+    let mut helpers = vec![];
+    let mut script = vec![];
+    if r.chance(1, 3) {
+        helpers.push(Helper { trigger: Trigger::Now, fails: false });
+        sources.push(Src::Await(0));
+    } else {
+        let m = gen_msg(r);
+        let ty = match &m {
+            Msg::Int(_) => Ty::Int,
+            Msg::Bin(_) => Ty::Bin,
+            Msg::Str(_) => Ty::Str,
+        };
+        sources.push(if r.chance(1, 3) {
+            Src::Recv { tys: vec![ty], filter: Some(Filter { slow: *r.pick(&[0u32, 5]), clauses: vec![(Pred::Any, FRes::Ok)] }) }
+        } else {
+            Src::Recv { tys: vec![ty], filter: None }
+        });
+        script.push(Act { sleep: None, spin: 0, kind: ActKind::Send(m) });
+    }
+    if r.chance(1, 3) {
+        sources.push(Src::Timeout(BOUNDARY_TIMEOUTS[r.usize(BOUNDARY_TIMEOUTS.len())].to_string()));
+    }
+    // p spins first, so that the message / the result is there when the select starts
+    Scenario { sources, helpers, script, final_sleep: Some(5), p_delay: *r.pick(&[60u32, 150, 400]), after_go: None, report: true }
+}
+
 fn gen_scenario(r: &mut Rng) -> Scenario {
+    if r.chance(1, 6) {
+        return gen_takeover_scenario(r);
+    }
+    if r.chance(1, 7) {
+        return gen_boundary_timeout_scenario(r);
+    }
     let n_helpers = *r.pick(&[0usize, 0, 1, 1, 2, 3]);
     let mut helpers = vec![];
     for _ in 0..n_helpers {
@@ -454,7 +537,7 @@ fn gen_scenario(r: &mut Rng) -> Scenario {
                 3..=5 => format!("{}", r.range(2, 6)),
                 6..=8 => format!("{}", r.range(7, 25)),
                 9 => "60".to_string(),
-                10 => "9223372036854775808".to_string(),
+                10 => BOUNDARY_TIMEOUTS[r.usize(BOUNDARY_TIMEOUTS.len())].to_string(),
                 _ => "-9223372036854775809".to_string(),
             };
             Src::Timeout(ms)
@@ -689,11 +772,18 @@ struct Runner<'a> {
     completed0: bool,
     out: Outcome,
     log_events: bool,
+    /// latest state string the model answered
+    mstate: String,
+    /// (model state, next-timeout answer) of the last next-timeout comparison
+    last_nt: (String, String),
 }
 
 impl<'a> Runner<'a> {
     fn ask(&mut self, line: String) -> String {
         let a = self.model.ask(&line);
+        if let Some(i) = a.find("mb=") {
+            self.mstate = a[i..].to_string();
+        }
         if self.log_events {
             self.out.events.push(format!("{line}  =>  {a}"));
         } else {
@@ -776,7 +866,7 @@ impl<'a> Runner<'a> {
                 }
                 Command::DeliverMessage { target, message, heap } if *target == self.pp => {
                     let v = wire_val(&self.sim, message, heap);
-                    if recv_idx(&self.model.ask("(state)")).is_some() {
+                    if recv_idx(&self.mstate).is_some() {
                         self.out.arrivals_during_filter += 1;
                     }
                     self.delivered.push(v.clone());
@@ -794,15 +884,14 @@ impl<'a> Runner<'a> {
                         }
                     }
                     rs.sort();
-                    if rs.is_empty() {
-                        self.ask("(wake)".to_string());
-                        evlog.push("wake".into());
-                    }
                     for (pid, r) in rs {
                         self.arrived.insert(pid, r.clone());
                         self.ask(format!("(result {pid} {r})"));
                         evlog.push(format!("result {pid} {r}"));
                     }
+                    // `update_await_results` ends with `wake_selecting(awaiter)` whatever it carried
+                    self.ask("(wake)".to_string());
+                    evlog.push("wake".into());
                 }
                 _ => {}
             }
@@ -830,7 +919,9 @@ impl<'a> Runner<'a> {
                         self.start = Some(now);
                     }
                 }
-                let before = recv_idx(&self.model.ask("(state)"));
+                // a Select execution may start a new select with other sources: the cached next-timeout is void
+                self.last_nt = (String::new(), String::new());
+                let before = recv_idx(&self.mstate);
                 let a = self.ask(format!("(select {site} {now})"));
                 if a.starts_with("called")
                     && let (Some(b), Some(n)) = (before, recv_idx(&a))
@@ -851,7 +942,7 @@ impl<'a> Runner<'a> {
         // the process died inside a filter?
         let failed_now = self.real_failed();
         if failed_now.is_some() && was_failed.is_none() {
-            let st = self.model.ask("(state)");
+            let st = self.mstate.clone();
             if st.contains("res=none") {
                 let a = self.ask("(filterfail)".to_string());
                 if a.starts_with("failed") {
@@ -872,7 +963,7 @@ impl<'a> Runner<'a> {
                     Err(c) => format!("(err {c})"),
                 };
                 // it is an arrival for p only if p's awaiting map has the key (the model decides the same way)
-                let st = self.model.ask("(state)");
+                let st = self.mstate.clone();
                 if st.contains(&format!("({h} ")) {
                     self.arrived.insert(h, rs.clone());
                 }
@@ -917,7 +1008,7 @@ impl<'a> Runner<'a> {
         // per-step state comparison
         if self.out.mismatch.is_none() {
             self.out.comparisons += 1;
-            let m = strip_queued(&self.model.ask("(state)"));
+            let m = strip_queued(&self.mstate);
             if let Some(real) = real_state(&self.sim, self.pw, self.pp) {
                 if m != real {
                     self.out.mismatch = Some((idx, evlog.join("; "), m, real));
@@ -926,7 +1017,13 @@ impl<'a> Runner<'a> {
             // next_timeout_ms: p is the only process with timeouts on its worker unless it shares it with main
             if self.pw != 0 && self.out.mismatch.is_none() {
                 let real = self.sim.workers[self.pw].next_timeout_ms().map(|t| t.to_string()).unwrap_or_else(|| "none".into());
-                let m = self.model.ask("(next-timeout)");
+                let m = if self.last_nt.0 == self.mstate {
+                    self.last_nt.1.clone()
+                } else {
+                    let a = self.model.ask("(next-timeout)");
+                    self.last_nt = (self.mstate.clone(), a.clone());
+                    a
+                };
                 if m != real {
                     self.out.mismatch = Some((idx, evlog.join("; "), format!("next-timeout {m}"), format!("next-timeout {real}")));
                 }
@@ -957,6 +1054,32 @@ impl<'a> Runner<'a> {
             Some(f) => Some(f.function_index) == self.fp && f.counter > *pc0,
         }
     }
+}
+
+/// A pending timeout further away than this counts as "never" for the scheduler (the simulator's own
+/// `random_choice` / `quiescent` are only used when no such timeout is pending).
+const FAR: u64 = 1_000_000_000_000;
+
+/// idle, and no timeout within reach: nothing can happen any more without outside input
+fn settled(sim: &Sim) -> bool {
+    sim.idle() && sim.next_timeout().map(|t| t > sim.time_ms.saturating_add(FAR)).unwrap_or(true)
+}
+
+/// `Sim::random_choice`, with the idle case handled here in saturating arithmetic
+fn next_choice(sim: &Sim, r: &mut Rng, p: &Policy) -> Choice {
+    if sim.idle()
+        && let Some(t) = sim.next_timeout()
+    {
+        if t > sim.time_ms && t <= sim.time_ms.saturating_add(FAR) {
+            let need = t - sim.time_ms;
+            let ms = if r.chance(1, 3) && need > 1 { 1 + r.below(need - 1) } else { need };
+            return Choice::Tick { ms };
+        }
+        // expired already (the worker has not looked yet) or out of reach: let a component step
+        let n = sim.n_workers();
+        return if r.chance(1, 3) { Choice::Env { visible: vec![usize::MAX; n] } } else { Choice::Worker { i: r.usize(n), visible: usize::MAX } };
+    }
+    sim.random_choice(r, p)
 }
 
 fn run_case(case: &Case, model: &mut Model, log_events: bool) -> Outcome {
@@ -999,7 +1122,10 @@ fn run_case(case: &Case, model: &mut Model, log_events: bool) -> Outcome {
         completed0: false,
         out,
         log_events,
+        mstate: String::new(),
+        last_nt: (String::new(), String::new()),
     };
+    rn.ask("(state)".to_string());
     let mut r = Rng::for_case(case.sched_seed, 0);
     let mut pol = Policy::random(&mut r, n);
     // with a one-instruction time slice a 1:20 starvation pattern needs millions of steps: keep it mild
@@ -1018,7 +1144,7 @@ fn run_case(case: &Case, model: &mut Model, log_events: bool) -> Outcome {
         if result.is_some() {
             break;
         }
-        if rn.sim.quiescent() {
+        if settled(&rn.sim) {
             idle_streak += 1;
             if idle_streak > 2 * (n + 1) {
                 break;
@@ -1030,7 +1156,7 @@ fn run_case(case: &Case, model: &mut Model, log_events: bool) -> Outcome {
             continue;
         }
         idle_streak = 0;
-        let c = rn.sim.random_choice(&mut r, &pol);
+        let c = next_choice(&rn.sim, &mut r, &pol);
         rn.step(c);
     }
     // a few more fair rounds so that late notifications (stale awaits) land, observed the same way
@@ -1040,18 +1166,18 @@ fn run_case(case: &Case, model: &mut Model, log_events: bool) -> Outcome {
             rn.step(Choice::Worker { i, visible: usize::MAX });
         }
     }
-    if result.is_none() && rn.sim.quiescent() && !rn.completed0 && rn.out.death.is_none() && rn.fp.is_some() {
+    if result.is_none() && settled(&rn.sim) && !rn.completed0 && rn.out.death.is_none() && rn.fp.is_some() {
         let t = rn.sim.time_ms;
         rn.out.final_spec = Some(rn.spec_now(t));
     }
     let mut out = std::mem::take(&mut rn.out);
-    out.budget_exhausted = result.is_none() && !rn.sim.quiescent();
+    out.budget_exhausted = result.is_none() && !settled(&rn.sim);
     out.steps = steps;
     out.end_time = rn.sim.time_ms;
     out.main = match &result {
         Some(Ok((v, heap))) => wire_val(&rn.sim, v, heap),
         Some(Err(e)) => format!("error:{}", qverif::canon::error_class(e)),
-        None => format!("hang:quiescent={}", rn.sim.quiescent()),
+        None => format!("hang:quiescent={}", settled(&rn.sim)),
     };
     if let Some(Ok((Value::Tuple(_, fields), heap))) = &result {
         out.p_fields = Some(fields.iter().map(|f| wire_val(&rn.sim, f, heap)).collect());
@@ -1255,7 +1381,8 @@ fn judge(case: &Case, o: &Outcome, ev: &mut Ev) -> Vec<Verdict> {
 
 /// effective duration as the documented semantics has it (negative → 0; beyond i64 → unbounded)
 fn eff_dur(ms: &str) -> u128 {
-    let v: i128 = ms.parse().unwrap_or(0);
+    // beyond i128 only the sign matters: out of i64 range on either side is "unbounded"
+    let v: i128 = ms.parse().unwrap_or(if ms.starts_with('-') { i128::MIN } else { i128::MAX });
     if v < i64::MIN as i128 || v > i64::MAX as i128 {
         i64::MAX as u128
     } else if v < 0 {
@@ -1300,7 +1427,9 @@ fn case_json(case: &Case, o: &Outcome) -> serde_json::Value {
 }
 
 fn main() {
-    qverif::quiet_panics();
+    if std::env::var("QVERIF_LOUD").is_err() {
+        qverif::quiet_panics();
+    }
     let opts = Opts::parse();
     let mut ev = Ev::new("C05", &opts);
     ev.rule = "distinct (scenario, workers, quantum, schedule seed) whose first select executed the Select instruction at least twice (a re-entry happened) and whose model/implementation states were compared at every step of p's worker".into();
@@ -1350,7 +1479,7 @@ fn main() {
         }
     }
     let n_corpus = cases.len();
-    let n_scen = opts.tier.pick(260u64, 6000);
+    let n_scen = opts.tier.pick(230u64, 6000);
     let n_sched = opts.tier.pick(4u64, 16);
     for i in 0..n_scen {
         let mut r = Rng::for_case(opts.seed ^ 0xC05, i);
@@ -1372,7 +1501,19 @@ fn main() {
             ev.hit("not-run:wall-clock-cap");
             continue;
         }
-        let o = run_case(case, &mut model, false);
+        let o = match qverif::catch(|| run_case(case, &mut model, false)) {
+            Ok(o) => o,
+            Err(msg) => {
+                // a panic inside the harness itself (the implementation's panics are caught per step by the
+                // simulator): report it as a broken check with the case, restart the model driver, go on
+                ev.hit("harness-panic");
+                let mut rj = json!({"case": case, "source": case.scenario.source(), "name": name, "panic": msg});
+                rj["broken"] = json!("the harness could not complete this case");
+                ev.violation("kind=harness-panic", &format!("harness panicked on a case: {msg}"), rj, false);
+                model = Model::spawn(&model_path);
+                continue;
+            }
+        };
         let nontrivial = o.rejected.is_none() && o.selects >= 2;
         ev.case(&(serde_json::to_string(case).unwrap()), nontrivial);
         // distribution counters
